@@ -46,11 +46,11 @@ type Concrete struct {
 }
 
 var leafVariants = map[string][]string{
-	"Lloc": {"FS_{TOK}", "FS_XXX{TOK}", "FS_{TOK}000"},
-	"Lrem": {"FS_REMOTE_host.example_4242_{TOK}", "FS_REMOTE_my_host-1_7_{TOK}"},
-	"La4":  {"FS_127.0.0.1_{PORT}_{TOK}"},
-	"La6":  {"FS_::1_{PORT}_{TOK}"},
-	"La4port": {"FS_{IP}_{PORT+1}_{TOK}", "FS_{IP}_1_{TOK}", "FS_{IP}_{PORT-1}_{TOK}"},
+	"Lloc":    {"FS_{TOK}", "FS_XXX{TOK}", "FS_{TOK}000"},
+	"Lrem":    {"FS_REMOTE_host.example_4242_{TOK}", "FS_REMOTE_my_host-1_7_{TOK}"},
+	"La4":     {"FS_127.0.0.1_{PORT}_{TOK}"},
+	"La6":     {"FS_::1_{PORT}_{TOK}"},
+	"La4port": {"FS_{IP}_{PORT+1}_{TOK}", "FS_{IP}_1_{TOK}", "FS_{IP}_{PORT-1}_{TOK}", "FS_{IP}_{PORT/10}_{TOK}", "FS_{IP}_{PORT}0_{TOK}"},
 	"La4ip":   {"FS_127.0.0.2_{PORT}_{TOK}", "FS_10.1.2.3_{PORT}_{TOK}", "FS_::2_{PORT}_{TOK}", "FS_0.0.0.0_{PORT}_{TOK}"},
 	"Lhost":   {"FS_localhost_{PORT}_{TOK}", "FS_host.example.org_{PORT}_{TOK}"},
 	"NM": {"FS{TOK}", "fs_{TOK}", "FS_{TOK}-x", "FS_{TOK}.", "XFS_{TOK}", "FS__{TOK}", "FS_{TOK} ", " FS_{TOK}",
@@ -93,6 +93,7 @@ func (e *Env) subst(t, tok string, fam int) string {
 	if up > 65535 {
 		up = pn - 2
 	}
+	t = strings.ReplaceAll(t, "{PORT/10}", itoa(pn/10))
 	t = strings.ReplaceAll(t, "{PORT+1}", itoa(up))
 	t = strings.ReplaceAll(t, "{PORT-1}", itoa(down))
 	t = strings.ReplaceAll(t, "{PORT}", port)
